@@ -39,17 +39,17 @@ MUTANTS = [
     ("push-disturbs-earlier-item", "Regions.tla",
      ('IN  [st |-> [data |-> st.data \\o v], idx |-> <<s, s + Len(v)>>]', 'IN  [st |-> [data |-> v \\o st.data], idx |-> <<0, Len(v)>>]'),
      "RegionsMC.tla", {"SubjectNames": {"owned_u8"}}, [], ["AppendOnly"], {"AppendOnly"}),
-    ("indexlist-returns-to-smol", "IndexContainers.tla",
+    ("indexlist-returns-to-smol", "IndexCore.tla",
      ("IF l.chonk = <<>> /\\ Fits32(x)", "IF Fits32(x)"),
      "ICMC.tla", {"Kinds": {"list"}}, ["Faithful"], [], {"Faithful"}),
-    ("optimized-retries-stride", "IndexContainers.tla",
+    ("optimized-retries-stride", "IndexCore.tla",
      ("IF ListLen(ic.sp) = 0\n         THEN LET r == StridePush(ic.st, x)", "IF TRUE\n         THEN LET r == StridePush(ic.st, x)"),
      "ICMC.tla", {"Kinds": {"opt"}}, ["Faithful"], [], {"Faithful"}),
-    ("stride-accepts-any-repeat", "IndexContainers.tla",
+    ("stride-accepts-any-repeat", "StrideCore.tla",
      ("ELSE IF Mul(st.s, st.c - 1) = x\n              THEN [ok |-> TRUE, st |-> [st EXCEPT !.tag = \"T\", !.r = 1]]",
       "ELSE IF TRUE\n              THEN [ok |-> TRUE, st |-> [st EXCEPT !.tag = \"T\", !.r = 1]]"),
      "ICMC.tla", {"Kinds": {"stride"}}, ["Faithful", "StrideExact"], [], {"Faithful", "StrideExact"}),
-    ("list-charges-4-bytes-always", "IndexContainers.tla",
+    ("list-charges-4-bytes-always", "IndexCore.tla",
      ("ListHeapUsed(l) == 4 * Len(l.smol) + 8 * Len(l.chonk)", "ListHeapUsed(l) == 4 * Len(l.smol) + 4 * Len(l.chonk)"),
      "ICMC.tla", {"Kinds": {"list"}}, ["CostRule"], [], {"CostRule"}),
     ("dictionary-never-refuses", "Dictionary.tla",
